@@ -25,6 +25,9 @@ type Handler interface {
 
 type HandlerFunc func(msg Message) error
 
+// Serve makes a plain function usable as a Handler
+func (f HandlerFunc) Serve(msg Message) error { return f(msg) }
+
 type ServeMux struct {
 	m  []HandlerFunc
 	mu sync.RWMutex
